@@ -277,7 +277,7 @@ def run(ctx):
     # ---- 1. the seven descriptions
     grids = []
     for name in names:
-        for i in range(ctx.n(3, 30)):
+        for i in range(ctx.n(6, 60)):
             grids.append((name, gen_grid(r, name, nice=(i % 3 == 2), big=T and i % 5 == 0)))
     # antimeridian-crossing geographic grids and global grids with cell-centred registration
     for name in ("longlat", "epsg4326"):
@@ -319,7 +319,7 @@ def run(ctx):
               ("cds", "radius"), ("ewh", "shape"), ("uds", "radius"), ("e", "center"), ("crd", "area_extent_by_ul")]
     for name in names:
         kind = POOL[name][1]
-        for _ in range(ctx.n(4, 40)):
+        for _ in range(ctx.n(10, 120)):
             ext, shape = gen_grid(r, name, nice=r.random() < 0.5)
             d = derive(ext, shape)
             base, extra = r.choice(combos)
@@ -380,7 +380,7 @@ def run(ctx):
     # ---- 4. correspondence-only stream: degrees on projected CRSs, mixed units, rounding of non-integral shapes, malformed
     for name in names:
         kind = POOL[name][1]
-        for _ in range(ctx.n(6, 60)):
+        for _ in range(ctx.n(12, 150)):
             ext, shape = gen_grid(r, name)
             d = derive(ext, shape)
             what = r.choice(["deg_center", "deg_all", "frac_shape", "frac_res", "mixed", "malformed", "polar_deg", "bad_units"])
@@ -436,7 +436,7 @@ def run(ctx):
     ynames = list(POOL) + list(YAML_EXTRA)
     words = ["area", "Europe 1km", "desc: colon", "#hash", "quote's \"x\"", "null", "yes", "1234", "1e5", "ünï cödé", "a  b", "-dash",
              "[x]", "{y}", "multi\nline", " lead", "trail ", "*star", "&amp", "%p", "@at", "`tick", "true", "~", "0x1F", "1_000", "on"]
-    nfiles = ctx.n(40, 400)
+    nfiles = ctx.n(80, 800)
     for i in range(nfiles):
         n = 1 if i % 3 == 0 else r.randint(2, 6)
         areas, samples = [], []
